@@ -159,6 +159,10 @@ def _decompose(arg, nv):
     if z3.is_var(arg):
         return z3.get_var_index(arg), None
     if z3.is_app(arg) and z3.is_int(arg):
+        if arg.num_args() and any(z3.is_app(c) and c.decl().kind() in (z3.Z3_OP_ADD, z3.Z3_OP_SUB) for c in arg.children()):
+            arg = z3.simplify(arg)      # flatten nested sums:  a + (0 + k)  ->  a + k
+            if z3.is_var(arg):
+                return z3.get_var_index(arg), None
         k = arg.decl().kind()
         if k == z3.Z3_OP_ADD:
             vs = [c for c in arg.children() if z3.is_var(c)]
@@ -236,7 +240,16 @@ def classify(hyps):
             if is_forall(c):
                 quants.append(c)
             elif has_quant(c):
-                quants.append(c)  # nested / existential: left to the solver
+                # G -> forall x. B   is rewritten to   forall x. (G -> B)   (equivalent) so that the
+                # instantiator can use it; other shapes (existentials ...) are left to the solver
+                n = None
+                if z3.is_implies(c) and is_forall(c.arg(1)) and not has_quant(c.arg(0)):
+                    q = c.arg(1)
+                    vs = [z3.Const(f"cq!{q.var_name(i)}!{next(_sk)}", q.var_sort(i)) for i in range(q.num_vars())]
+                    body = z3.substitute_vars(q.body(), *reversed(vs))
+                    n = z3.ForAll(vs, z3.Implies(c.arg(0), body))
+                    _KEEP.append(n)
+                quants.append(n if n is not None else c)
             else:
                 ground.append(c)
     _CLASS_CACHE[key] = (ground, quants)
